@@ -30,8 +30,9 @@ CLAIMS = {
         note='track angle uses atan2 (trusted libm; the model leaves it symbolic); int(math.sqrt n) modelled as Nat.sqrt.',
         design="8 C09", technique="Lean 4 proof (table certificate, field theorems) + product/exhaustive correspondence"),
     "C10": dict(
-        text="Theorems: callsign_roundtrip (any eight legal 6-bit codes in ME bits 9-56 of a TC1-4 frame come back as the eight characters, "
-             "for every other bit content: structural, covers 37^8), cs20_roundtrip (all 64^8), category_spec, and the regenerated chars "
+        text="Theorems: callsign_roundtrip_frame (any eight legal 6-bit codes in ME bits 9-56 of a TC1-4 frame of >= 88 bits come back as the eight characters, "
+             "for every other bit content: structural, covers 37^8; non-vacuity shown on a real 112-bit frame), cs20_roundtrip (all 64^8), callsign_char_independent / "
+             "cs20_char_independent (changing one code changes exactly that output position), category_spec, and the regenerated chars "
              "tables equal Annex 10 Table 3-9 on every legal code. Correspondence: every (position, code), random legal strings, guards.",
         note="callsign() deletes '#': position independence for illegal codes is not claimed (nor required by the property).",
         design="8 C10", technique="Lean 4 proof (structural round-trip over build/slice lemmas + table certificate) + correspondence"),
@@ -56,13 +57,20 @@ CLAIMS = {
         note='56-bit frames into long-frame decoders and reserved TC29 subtypes are recorded open findings (KNOWN-FINDING).',
         design="8 C14", technique="Lean 4 proof (guard theorems over a Res-valued model) + exhaustive outcome-class correspondence"),
     "C18": dict(
-        text="Theorems: uplink_fields agrees with pr/ic for UF11; non-roll-call, non-UF11 formats carry no fields. All field decoders and uplink_icao are "
-             "tied by correspondence (UF x RR x DI, SD products, UF11 product, 6000+ addresses x both lengths through the Annex 10 uplink AP encoder).",
-        note="uplink_icao_roundtrip theorem depends on the C01 algebra (in progress).",
+        text="Theorems (Properties/C18.lean): uplink_icao_roundtrip / uplink_loop_address (for every data field of a multiple of 4 bits >= 32 and every 24-bit address the "
+             "bit-serial loop of uplink_icao returns the address from a frame whose AP field is parity(data) xor the top 24 coefficients of A(x)G(x); clmul is "
+             "multiplication in (ZMod 2)[X]); frame-level specifications of every field decoder in Annex 10 bit positions (byteAt_eq_fields: DI 14-16, RR 9-13, "
+             "RRS 21-24 / 24-27, IIS 17-20, SIS 17-22, LOS 26, LSS 23, PR 6-9, IC 10-13, CL 14-16; uplinkPr_spec, uplinkIc_spec_uf11 / _rollcall, uplinkBds_spec, "
+             "uplinkLockout_spec, ufB_spec), uplink_fields agrees with the single-field functions for UF4/5/20/21 (uplink_fields_agrees_rollcall), UF11 and all other "
+             "formats, and encoder round trips for the UF/PC/RR/DI/SD header and the DI=7, DI=3 and UF11 layouts. Tie: UF x RR x DI, SD products, UF11 product, "
+             "6000+ addresses x both lengths through the independent Python Annex 10 uplink AP encoder (itself compared with the Lean Spec encoder).",
+        note="the mask identities are one kernel-checked enumeration over byte values (decide +kernel, no axioms).",
         design="8 C18", technique="Lean 4 proof + product correspondence"),
     "C03": dict(
-        text="Model of bds05.airborne_position over exact rationals with NL as a parameter; theorems (in progress, see Properties/C03.lean): "
-             "same-parity pairs are rejected, argument order is irrelevant, global latitude/longitude recovery for every NL function inside the zone-relative boxes. "
+        text="Model of bds05.airborne_position over exact rationals with NL as a parameter; theorems (Properties/C03.lean, 7): "
+             "same-parity pairs are rejected, argument order is irrelevant, the decoded latitude lies in [-90, 90], global latitude and longitude recovery "
+             "(global_lat, global_decode) for EVERY NL function whenever the two encoded positions lie inside the zone-relative boxes (1/2 latitude zone less one LSB; "
+             "1/2 longitude zone), None exactly when the two recovered latitudes fall into different NL bands. "
              "Tie: exact-rational DO-260B encoder (also implemented in Lean as Spec.cprEncode and compared with the Python one) x NL transitions, poles, equator, "
              "meridians, the 87-degree band, random positions x <=1 NM displacements x time orders x argument orders x type codes.",
         note="'<= 1 NM apart => inside the boxes' is spherical geometry, not a theorem (trusted-base item 6 of DESIGN.md).",
